@@ -32,7 +32,10 @@ def dump(o, depth=0, seen=None):
     d = getattr(o, "__dict__", None)
     if d is None:
         return repr(o)
-    return (type(o).__name__, {k: dump(v, depth + 1, seen) for k, v in sorted(d.items()) if not any(t in k.lower() for t in TIMER)})
+    # attributes the package did not have when the contracts were written (pyvc/fields_baseline.json) are not compared:
+    # what they hold is visible, if it matters, in the views and in how the run continues
+    from pyvc import fields
+    return (type(o).__name__, {k: dump(v, depth + 1, seen) for k, v in sorted(d.items()) if not any(t in k.lower() for t in TIMER) and k in fields.baseline()})
 
 
 def view(sim):
